@@ -1,4 +1,5 @@
 import TonicModel.Lemmas.FramingWire
+import TonicModel.Lemmas.RichErrorWire
 /-
 C01 — Message streams survive encode/decode unchanged under any chunking.
 Property theorems only; the invariants are in Lemmas/Framing*.lean.
@@ -81,6 +82,55 @@ theorem C01_decode_any_chunking (cd : Codec α) (cfg : DecCfg) (laws : CodecLaws
   obtain ⟨k, hk, hrun⟩ := run_clean cd cfg n Dec.init evs (xs.map (·.msg)) (by simp [PhaseOk, Dec.init])
     hclean hend hx (by simpa using hn)
   exact ⟨k, hk, by simpa [List.map_map, Function.comp_def] using hrun⟩
+
+
+/-- `C01_decode_any_chunking` with the codec law required only of the messages actually sent. -/
+theorem C01_decode_any_chunking_on (cd : Codec α) (cfg : DecCfg)
+    (xs : List (Sent α)) (laws : CodecLawsOn cd xs) (hxs : ∀ x ∈ xs, SentOk cd cfg x)
+    (evs : List BodyEv) (hclean : CleanEvs evs = true)
+    (hcut : dataOf evs = Spec.Framing.frames (xs.map (wireOf cd cfg.enc)))
+    (hend : EndOk cfg Dec.init evs)
+    (n : Nat) (hn : evs.length + xs.length < n) :
+    ∃ k, 1 ≤ k ∧ nonPending (Dec.run cd cfg n Dec.init evs)
+      = (xs.map (fun x => Item.msg x.msg)) ++ List.replicate k .none := by
+  have hx : specFrom cd cfg Dec.init (dataOf evs) = (xs.map (·.msg), .clean) := by
+    simp only [specFrom, Dec.init, List.nil_append, hcut]
+    exact batch_wire_on cd cfg xs laws hxs
+  obtain ⟨k, hk, hrun⟩ := run_clean cd cfg n Dec.init evs (xs.map (·.msg)) (by simp [PhaseOk, Dec.init])
+    hclean hend hx (by simpa using hn)
+  exact ⟨k, hk, by simpa [List.map_map, Function.comp_def] using hrun⟩
+
+/-! ### The codec parameter discharged for a real prost message
+
+`RichError.prost` is the concrete protobuf wire model of prost 0.13 (tied to the real prost by
+C20's correspondence, bytes compared exactly).  Instantiating the framing model's codec with
+`google.rpc.Status` messages removes the "message codec round-trips" hypothesis: what remains
+assumed is only the compressors' law. -/
+
+/-- the framing codec whose messages are `google.rpc.Status` values, encoded by the prost model -/
+def statusCodec (cz : Enc → Bytes → Bytes) (dz : Enc → Bytes → Option Bytes) : Codec RichError.PbStatus where
+  ser := RichError.prost.encStatus
+  de := RichError.prost.decStatus
+  deErr := 13
+  cz := cz
+  dz := dz
+
+/-- **Protobuf messages survive framing under any chunking — no codec hypothesis.**  Any list of
+well-formed `google.rpc.Status` messages (int32 code, UTF-8 message and type URLs, arbitrary
+`Any` payloads), serialized by the prost wire model, framed (identity or compressed), cut at
+arbitrary byte positions with arbitrary `Pending`s, decodes to exactly those messages. -/
+theorem C01_decode_protobuf_any_chunking (cz : Enc → Bytes → Bytes) (dz : Enc → Bytes → Option Bytes)
+    (hz : ∀ e b, dz e (cz e b) = some b) (cfg : DecCfg)
+    (xs : List (Sent RichError.PbStatus)) (hwf : ∀ x ∈ xs, RichError.WFs x.msg)
+    (hxs : ∀ x ∈ xs, SentOk (statusCodec cz dz) cfg x)
+    (evs : List BodyEv) (hclean : CleanEvs evs = true)
+    (hcut : dataOf evs = Spec.Framing.frames (xs.map (wireOf (statusCodec cz dz) cfg.enc)))
+    (hend : EndOk cfg Dec.init evs)
+    (n : Nat) (hn : evs.length + xs.length < n) :
+    ∃ k, 1 ≤ k ∧ nonPending (Dec.run (statusCodec cz dz) cfg n Dec.init evs)
+      = (xs.map (fun x => Item.msg x.msg)) ++ List.replicate k .none :=
+  C01_decode_any_chunking_on (statusCodec cz dz) cfg xs
+    ⟨fun x hx => RichError.prost_status_law x.msg (hwf x hx), hz⟩ hxs evs hclean hcut hend n hn
 
 /-- **Round trip.**  Whatever the encoder emitted for a successful schedule, re-cut arbitrarily
 by the transport and delivered with arbitrary readiness, decodes to the schedule's messages. -/
